@@ -32,6 +32,11 @@ impl Block {
     ) -> io::Result<Self> {
         use crate::codecs::{aac, bzip2, gzip, lzma, name_tokenizer, rans_4x8, rans_nx16};
 
+        // § 8 "Block structure": "Blocks with a raw (uncompressed) size of zero are treated as
+        // empty, irrespective of their `method` byte." Not every codec accepts an empty input
+        // (the core data block is always empty when all data series are external).
+        let encoder = if src.is_empty() { None } else { encoder };
+
         let (compression_method, buf) = match encoder {
             None => (CompressionMethod::None, src.to_vec()),
             Some(Encoder::Gzip(compression_level)) => (
